@@ -198,6 +198,41 @@ def run(R):
                  detail=None if ok else "a stream item equal to a previously derived fact is deleted from the current window")
     else:
         R.ob("C10-R4", "evict-first", "no deletion of previous-firing state follows the load", True)
+    r5(R)
+
+
+def r5(R):
+    """lock order at engine level"""
+    from lib.lockorder import Locks, find_cycle
+    prog = R.prog
+    R.rule("C10-R5", "lock order: the engine-level lock graph (B acquired while a guard of A is live, callees included) is acyclic, no "
+                     "guard is live across a blocking receive/join, and the database-internal RwLocks are leaf locks with respect "
+                     "to the engine's mutexes")
+    bodies = [b for b in prog.bodies.values() if b.crate == "kolibrie" and b.file.endswith(("rsp_engine.rs", "rsp/simple_r2r.rs", "rsp/r2s.rs"))
+              and not b.unit.endswith("__test") and "::tests::" not in b.key]
+    L = Locks(prog)
+    nacq = 0
+    unnamed = []
+    for b in bodies:
+        for a in L.acquisitions(b):
+            nacq += 1
+            if not a["name"]:
+                unnamed.append(b.where(a["call"].ln))
+    R.floor("C10-R5", "lock acquisitions in the stream engine", nacq, 18)
+    R.ob("C10-R5", "identities", "every lock acquisition resolves to a lock identity (unresolved: %s)" % unnamed[:4], not unnamed)
+    edges, blocking = L.edges(bodies)
+    uniq = sorted({(a, b2) for a, b2, w in edges})
+    R.advisory("C10-R5", "lock nesting edges: %s" % uniq)
+    cyc = find_cycle(edges)
+    R.ob("C10-R5", "acyclic", "the lock-nesting graph is acyclic (%d edges)" % len(uniq), cyc is None,
+         detail=None if cyc is None else "cycle: %s" % " -> ".join(cyc))
+    R.ob("C10-R5", "no-recv-under-guard", "no guard is live across a blocking receive / join", not blocking,
+         detail=None if not blocking else "; ".join("%s held at %s" % x for x in blocking[:4]))
+    # leaf rule: while a dictionary / quoted-triple-store guard is live no engine mutex is acquired
+    leaf_names = ("dictionary", "quoted_triple_store")
+    bad = [(a, b2, w) for a, b2, w in edges if a.split(".")[-1] in leaf_names and b2.startswith("RSPEngine.")]
+    R.ob("C10-R5", "db-locks-are-leaves", "no engine-level lock is acquired while a dictionary / quoted-store guard is live", not bad,
+         detail=None if not bad else "; ".join("%s -> %s at %s" % x for x in bad[:4]))
 
 
 def _upvar_names(p, op):
